@@ -43,6 +43,12 @@ CHECKS = {
  "C13": ("generated COLR paint graphs (depth <= 6, all supported paint formats) in fontBuilder fonts; own SVG interpreter of colr_to_svg output vs own COLR interpreter", "§4 C13",
          "Generated third-party-style COLRv0/v1 fonts with recursive paint graphs over every supported paint format, palettes, foreground colour and three viewBox choices; the SVG produced for each colour glyph is interpreted and compared, in the em box, with the paint graph's display tree; planted unsupported nodes must raise or warn. Sampling.",
          "Trusted: fontTools colorLib builder / COLR decompiler; the two interpreters in vlib (both ours, so only the conversion is judged)."),
+ "C08": ("metamorphic: same generated sources built by the real CLI under permuted argv / hash seeds / ninja -j / step latencies / other locations; sha256 equality (+ API tier in fresh interpreters)", "§4 C08",
+         "Generated source sets are built by the real console script under a base and three varied environments (argument order, PYTHONHASHSEED, ninja parallelism through a PATH shim, seeded per-step latencies, another absolute location/cwd/build dir) and, at API level, in fresh interpreters with different hash seeds; all outputs must be byte-identical. Schedules are sampled, not enumerated.",
+         "Trusted: SOURCE_DATE_EPOCH pins timestamps; resvg/pngquant/zopfli deterministic."),
+ "C09": ("generated edit/option/fault histories on one build directory driven through the real CLI; invariant: bytes == clean build after every success, faulted runs exit != 0", "§4 C09",
+         "Stateful generation of histories (add/modify/rename/remove sources, option changes by flag or TOML, invocations with injected faults at every step kind and in the driver, in five modes); after every successful invocation the font must equal a clean build of the current inputs in an empty directory, and every invocation in which a fault fired must exit non-zero. Fault enumeration over step kinds x modes, sampled histories.",
+         "Trusted: fault injector (sitecustomize + PATH shims) logs every firing; crash points are per step kind, not per instruction."),
 }
 NOT_APPLICABLE = []
 def main():
@@ -59,7 +65,7 @@ def main():
             "evidence_file": "evidence/%s.json" % pid,
             "replay_cmd_template": "./check %s --replay {path}" % pid,
             "engine": "vlib",
-            "level_claimed": {"category": "exploration", "text": text, "design_ref": ref},
+            "level_claimed": {"category": "fault_enumeration" if pid == "C09" else "exploration", "text": text, "design_ref": ref},
             "level_note": note,
             "technique": "property-based testing: " + tech,
         })
